@@ -31,7 +31,12 @@ RULE = ('histories: action kind (snapshot / log / metric / span and combinations
         'own hit; conc-inner: the same with the thread parked PART-WAY through ONE expression (`pause() and <names>`, '
         '`(pause(), <names>)[1]`) — a field / LOG watch or the CONDITION of the tracepoint (true in one thread\'s frame, '
         'false or failing in the other\'s): the names read after the pause must still be those of the own frame, a hit '
-        'whose condition is false in its own frame produces nothing. Non-trivial: a '
+        'whose condition is false in its own frame produces nothing; threads (every 17th case): a history with a finite '
+        'fire_count whose hits arrive strictly one after the other on 2-3 persistent (live) host threads, often starting '
+        'with a rejected hit (false / raising Exception / raising BaseException) on one thread followed by a true hit on '
+        'another — judged like any history (fires iff limits and condition permit); scope expressions (condition, watches, '
+        'log fields, metric value and labels) include string literals with runs of blanks / tabs / line breaks, triple-quoted '
+        'literals, expressions laid out over several lines inside brackets and leading / trailing blanks. Non-trivial: a '
         'history with at least one condition-rejected hit followed by a collection, or a scope case with at least one '
         'failing and one succeeding expression. Distinct = distinct canonical JSON of the case.')
 TRUSTED = ['Python eval / str on live values is the eval oracle (reference evaluation in a copy of the environment)',
@@ -114,13 +119,21 @@ def gen_history(rng, nonbool=False):
             'condition': rng.choice(CONDITIONS), 'hits': hits}
 
 
+# the white space of an expression belongs to it: runs of blanks / tabs / line breaks inside string literals are part of the
+# value, an expression may be laid out over several lines inside brackets, leading / trailing blanks are allowed
+WS_EXPRS = ["'x  y'", "w == 'a  b\tc'", "len('a \t b')", "s + '  ' + s", "w.split('  ')", "'%s  %s' % (a, s)",
+            '"""l1\n  l2"""', "w.count('  ') + w.count('\t')", '(a +\n   1)', '  a + 2  ', "[a,\n lst[0],\n 'p\n\nq']",
+            "'tab\there'.split('\t')", "d.get('k  k', 'none  found')", "GSTR + '   ' + w"]
+WS_CONDS = ["w == 'a  b\tc'", "w.count('  ') == 1", "s + '  ' == 'text  '", "'  ' in w and GNUM == 42",
+            "len('a  b') == 4", "w == 'a b c'", "(a > 3 and\n w.startswith('a  b'))", "'\t' in w"]
+WS_FIELDS = [e for e in WS_EXPRS if all(ch not in e for ch in '{}!:')]
 LOCAL_VALUES = [5, -3, 0, 'text', 'ünï', 2.5, True, None, [1, 2, 3], {'k': 'v', 'n': 7}, {'obj': {'name': 'bob', 'age': 3}},
                 {'tuple': [1, 'a']}, '', [[1], [2]]]
 BUILTIN_NAMES = ['len', 'abs', 'max', 'print', 'ValueError', 'sorted', 'str']
 EXPRS_OK = ['a + 1', 'len(lst)', 'lst[0]', 'd["k"]', "d['n'] * 2", 'o.name', 'o.age + a', 'twice(a)', 'ident(s)',
             'GNUM + a', 'GSTR', 'GSTR.upper()', 'GLIST[-1]', 'abs(-a)', 'str(a) + s', 'a > 3', 'a == 5 and GNUM == 42',
             '[x * 2 for x in lst]', 'max(lst)', 'not a', 's * 2', 'GOBJ.name', 'len(GSTR) + len(s)', "'%s-%s' % (a, s)",
-            '(lambda q: q + a)(1)', 'sorted(d)', 'None', '1.5 + a', 'twice(GSTR)']
+            '(lambda q: q + a)(1)', 'sorted(d)', 'None', '1.5 + a', 'twice(GSTR)'] + WS_EXPRS + X.SHADOW_VALUE_EXPRS + X.SHADOW_TEXT_EXPRS
 EXPRS_FAIL = ['nope', 'a / 0', 'd["missing"]', 'd[1]', 'lst[99]', 'o.nothing', 'boom()', "boom('KeyboardInterrupt', 'stop')",
               "boom('HostInterrupt', 'true')", "boom('SystemExit', '1')", "boom('GeneratorExit')", "boom('HostQuit', 'y')",
               'int(s)', 'len(a)', '1 +', 'GSTR + 1', 'undefined_fn(a)', "boom('KeyError', 1)", "boom('BaseException', 'yes')",
@@ -153,7 +166,9 @@ def field_ok(f):
 def gen_scope(rng, nested=False):
     names = []
     g = {'GNUM': 42, 'GSTR': 'glob', 'GLIST': [7, 8, 9], 'GOBJ': {'obj': {'name': 'gob'}}}
-    loc = [['a', 5], ['s', 'text'], ['lst', [3, 1, 2]], ['d', {'k': 'v', 'n': 7}], ['o', {'obj': {'name': 'bob', 'age': 3}}]]
+    loc = [['a', 5], ['s', 'text'], ['lst', [3, 1, 2]], ['d', {'k': 'v', 'n': 7}], ['o', {'obj': {'name': 'bob', 'age': 3}}],
+           ['w', 'a  b\tc']] + [list(x) for x in X.SHADOW_LOCALS]
+    g.update(X.SHADOW_GLOBALS)
     # bare names with sentinel values: where is each bound?
     pool = rng.sample(X.AGENT_ONLY_NAMES, rng.randint(2, 5)) + rng.sample(BUILTIN_NAMES, 2) + \
         ['n_%d' % i for i in range(rng.randint(2, 5))]
@@ -176,18 +191,18 @@ def gen_scope(rng, nested=False):
     rng.shuffle(watches)
     cond = rng.choice([None, None, 'GNUM == 42', 'a > 3 and GSTR == "glob"', 'GNUM < 0', 'a == 6', 'uuid is not None',
                        'nope', 'd[1]', "boom('HostInterrupt', 'true')", 'len(lst) == 3', 'FrameType is not None',
-                       'twice(a) == 10', 'GOBJ.name == "gob"'])
+                       'twice(a) == 10', 'GOBJ.name == "gob"'] + WS_CONDS)
     case = {'kind': 'scope', 'via': rng.choice(['real', 'real', 'mock']), 'globals': g, 'params': params, 'locals': loc,
             'names': names, 'watches': watches, 'condition': cond,
             'frame_type': rng.choice([None, 'no_frame', 'all_frame'])}
     if rng.random() < 0.6:
-        fields = [rng.choice(EXPRS_OK + EXPRS_FAIL[:6] + names) for _ in range(rng.randint(1, 3))]
+        fields = [rng.choice(EXPRS_OK + EXPRS_FAIL[:6] + names + WS_FIELDS) for _ in range(rng.randint(1, 3))]
         fields = [f for f in fields if field_ok(f)] or ['a']
         case['log_fields'] = fields
     if rng.random() < 0.6:
-        case['metric'] = {'expr': rng.choice(['a', 'GNUM', 'GNUM + a', 'len(lst)', 'nope', 'uuid', 'GSTR', 'time_ns()',
+        case['metric'] = {'expr': rng.choice(X.SHADOW_VALUE_EXPRS + ["len('a  b\tc')", "w.count('  ') + 2", "float(' 2.5\t')", 'a', 'GNUM', 'GNUM + a', 'len(lst)', 'nope', 'uuid', 'GSTR', 'time_ns()',
                                               "boom('HostInterrupt', 'x')", "boom('SystemExit', 2)", 'a / 0']),
-                          'labels': [[k, rng.choice(['GSTR', 's', 'nope', 'uuid', 'o.name', 'FrameType', 'n_0', 'a / 0',
+                          'labels': [[k, rng.choice(X.SHADOW_TEXT_EXPRS + ["'x  y'", 'w', "w.replace('  ', '_')", 'GSTR', 's', 'nope', 'uuid', 'o.name', 'FrameType', 'n_0', 'a / 0',
                                                      "boom('KeyboardInterrupt', 'k')", "boom('GeneratorExit', 'g')"])]
                                      for k in rng.sample(['l1', 'l2', 'l3'], rng.randint(0, 3))]}
     if nested:
@@ -280,11 +295,45 @@ def gen_conc(rng, k):
     return case
 
 
+def gen_threads(rng):
+    """a history whose hits arrive strictly one after the other on 2-3 persistent host threads (all alive for the whole
+    history), finite fire_count: a hit rejected by its condition on one thread must not cost a later true hit on
+    another thread its place in the budget"""
+    case = gen_history(rng)
+    case['stream'] = 'threads'
+    case['cfg']['fire_count'] = rng.choice(['1', '1', '2', '3'])
+    if rng.random() < 0.7:
+        case['cfg']['fire_period'] = '0'
+    if blank(case['condition']):
+        case['condition'] = 'cond()'
+    n = rng.choice([2, 2, 3])
+    hits = case['hits'][:rng.randint(2, 10)]
+    if len(hits) < 2:
+        hits = hits + [{'ts': hits[-1]['ts'] + 5 * 10 ** 9, 'cond': {'k': 'true'}}]
+    # start with a rejected hit on one thread, then a true one on another (the rest is random)
+    if rng.random() < 0.6:
+        hits[0] = dict(hits[0], cond=rng.choice([{'k': 'false'}, {'k': 'raise', 'cls': 'ValueError', 'msg': 'x'},
+                                                 {'k': 'raise', 'cls': 'HostInterrupt', 'msg': 'true'}]))
+        hits[1] = dict(hits[1], cond={'k': 'true'})
+    last = None
+    out = []
+    for h in hits:
+        t = rng.randrange(n)
+        if last is not None and rng.random() < 0.6:
+            t = (last + 1 + rng.randrange(n - 1)) % n
+        last = t
+        out.append(dict(h, thread=t))
+    case['hits'] = out
+    return case
+
+
 def gen(rng, tier):
     k = 0
     while True:
         k += 1
-        if k % 13 == 0:
+        if k % 17 == 0:
+            yield gen_threads(rng)
+        elif k % 13 == 0:
             yield gen_conc(rng, k // 13)
         elif k % 20 == 0:
             yield gen_scope(rng, nested=True)
@@ -332,6 +381,11 @@ def corpus():
         # two threads expanding a log message at once: every field is evaluated in the frame of its own hit
         {'kind': 'conc', 'mode': 'log', 'fields': ['pause()', 'a', 'GSTR', 'who'], 'sched': [0, 1, 1, 0]},
         {'kind': 'conc', 'mode': 'snap', 'fields': ['who', 'pause()', 's', 'GNUM + a'], 'sched': [0, 1, 0, 1]},
+        # rejected hits on one live thread, then a true hit on another: the budget is still there
+        {'kind': 'history', 'stream': 'threads', 'action': 'snapshot', 'cfg': {'fire_count': '1', 'fire_period': '0'},
+         'condition': 'cond()', 'hits': [{'ts': 10, 'cond': f, 'thread': 0},
+                                         {'ts': 20, 'cond': {'k': 'raise', 'cls': 'HostInterrupt', 'msg': 'true'}, 'thread': 1},
+                                         {'ts': 30, 'cond': t, 'thread': 2}, {'ts': 40, 'cond': t, 'thread': 0}]},
         # parked in the MIDDLE of one expression (condition / field) while the other thread's hit is processed
         {'kind': 'conc', 'stream': 'inner', 'mode': 'snap', 'fields': ['who'], 'condition': 'pause() and a > 10',
          'sched': [0, 1, 1, 0]},
@@ -414,8 +468,45 @@ def effect_counts(rig):
             'span': len([e for e in rig.span.events if e[0] == 'open']) if rig.span else 0}
 
 
+class Worker:
+    """a persistent host thread: runs the calls handed to it one at a time, the caller waits for each to finish
+    (strictly sequential hits, on different LIVE threads)"""
+
+    def __init__(self):
+        import queue
+        self.q, self.done = queue.Queue(), queue.Queue()
+        self.thread = threading.Thread(target=self.loop, daemon=True)
+        self.thread.start()
+
+    def loop(self):
+        while True:
+            fn = self.q.get()
+            if fn is None:
+                return
+            try:
+                fn()
+                self.done.put(None)
+            except BaseException as e:  # noqa: B902
+                self.done.put(e)
+
+    def call(self, fn):
+        import queue
+        self.q.put(fn)
+        try:
+            e = self.done.get(timeout=30)
+        except queue.Empty:
+            raise core.Infra('worker thread did not finish a hit in 30 s')
+        if e is not None:
+            raise e
+
+    def close(self):
+        self.q.put(None)
+        self.thread.join(10)
+
+
 def run_history(case):
     rig = Rig(metric=True, span=case.get('span_proc', True))
+    workers = {}
     try:
         rig.install([build_history_trigger(case)])
         state = {'cond': None, 'calls': 0}
@@ -438,9 +529,20 @@ def run_history(case):
             before = effect_counts(rig)
             loc = {'cond': cond, 'x': 1}
             try:
-                rig.handler.trace_call(MockFrame('/app/host.py', 'fn', 7, loc), event, None)
-                n_calls = state['calls']
-                flush_callbacks(rig, loc)
+                def one_hit():
+                    rig.handler.trace_call(MockFrame('/app/host.py', 'fn', 7, loc), event, None)
+                    state['n_calls'] = state['calls']
+                    flush_callbacks(rig, loc)
+                if h.get('thread') is None:
+                    one_hit()
+                else:
+                    # the hit happens on one of the host's persistent threads (all alive during the whole history)
+                    if h['thread'] not in workers:
+                        workers[h['thread']] = Worker()
+                    workers[h['thread']].call(one_hit)
+                n_calls = state['n_calls']
+            except core.Infra:
+                raise
             except BaseException as e:  # noqa: B902 — the agent must not raise; report it
                 return {'raised': f'{type(e).__name__}: {e}', 'fired': fired, 'evals': evals, 'by_kind': by_kind}
             after = effect_counts(rig)
@@ -453,6 +555,8 @@ def run_history(case):
             evals.append(n_calls)
         return {'fired': fired, 'evals': evals, 'by_kind': by_kind}
     finally:
+        for w in workers.values():
+            w.close()
         rig.close()
 
 
